@@ -198,6 +198,24 @@ WRelocDeep ==
          {P, PQ}, <<A>>, {PQC}, {T}, {PQC, PQ}, {"e"}, {PQC})
 WorldsRelocDeep == {WRelocDeep}
 
+\* destination two packages deep (p.q.t): a client that reaches the moved definition through the module
+\* object must be given an import of p.q.t, possibly next to a from-import of the top-level package p
+PQT == <<"p", "q", "t">>
+WMoveDeep ==
+  MWorld("movedeep",
+         (A :> <<>>) @@ (P :> <<>>) @@ (PQ :> <<>>) @@ (PQT :> <<>>) @@ (PB :> LibB(PB))
+           @@ (S :> <<Fn("f", S), Fn("k", S)>>),
+         {P, PQ}, <<A>>, {S}, {PQT}, {}, {}, {})
+WorldsMoveDeep == {WMoveDeep}
+
+\* a module that defines a name spelled like the module itself (p/k.py defines k): from p.k import k
+PK == <<"p", "k">>
+WRelocSame ==
+  MWorld("relocsame",
+         (A :> <<>>) @@ (P :> <<>>) @@ (Q :> <<>>) @@ (PK :> <<Fn("k", PK), Fn("f", PK)>>),
+         {P, Q}, <<A>>, {}, {}, {PK}, {"e"}, {PK})
+WorldsRelocSame == {WRelocSame}
+
 WorldsReloc == {WReloc, WRelocIn}
 WorldsRelocInit == {WRelocInit}
 WorldsRelIn == {WMovePkgIn, WRelocIn}
